@@ -55,6 +55,14 @@ def run(ctx):
     rule_ragged_members(ctx, 'C03.R4', eemd)
     rule_second_layer(ctx, 'C03.R5')
     rule_layout(ctx, 'C03.R6')
+    siftcore.rule_no_clobber(ctx, 'C03.R8', sift, 'emd.sift.get_next_imf',
+                             [{'stop_method': sm, 'energy_thresh': None} for sm in siftcore.STOP_METHODS])
+    siftcore.rule_no_clobber(ctx, 'C03.R8', msift, 'emd.sift.get_next_imf_mask', [{}])
+    # a cap (or any option) written into the caller's option dict is silently in force on the next call
+    from .c06 import rule_no_replacement
+    rule_no_replacement(ctx, 'C03.R7', only={'emd.sift.sift_second_layer', 'emd.sift.mask_sift_second_layer',
+                                             'emd.sift.sift', 'emd.sift.mask_sift', 'emd.sift.ensemble_sift',
+                                             'emd.sift.complete_ensemble_sift'})
 
 
 MASK_CTX = {'mask_amp_mode': 'ratio_imf', 'ret_mask_freq': False}
